@@ -73,6 +73,10 @@ def run(tier):
     rnd = random.Random(common.seed() + 17)
     mols = [m for m in I.core_instances() + I.extra_instances() + I.chem_instances(tier) if not m.name.startswith(("neg-", "plain"))]
     mols += [I.random_instance(rnd, "small") for _ in range(20 if tier == "quick" else 200)]
+    # graph-only shapes: end groups that carry several descriptors, followed by further end groups
+    from .gast import M, S
+    mols += [M(S("[]", ["[>]CC[<]"], ["[<]NCO[<]", "[<]Cl", "[<]CO", "[>]F"], "[]", I.g(50)), name="multi-descriptor-endgroup"),
+             M("C[>]", S("[>]", ["[<]CC[>]", "[<]C(O[>2])C[>]"], ["[<2]N[<]", "[<]Cl", "[<2]CO"], "[<]", I.g(50)), "[<]OC", name="multi-descriptor-endgroup-2")]
     # the same molecules with Schulz-Zimm distributions (mn / mw node attributes)
     import copy
     szm = []
